@@ -38,8 +38,12 @@ func String(str string, t reflect.Type) (reflect.Value, error) {
 			if parseErr != nil {
 				return reflect.Value{}, fmt.Errorf("parse error of item %d %q: %s", idx, strVal, parseErr)
 			}
+			// scalars come back as pointers, nested slices and maps as themselves
+			if castVal.Kind() == reflect.Ptr {
+				castVal = castVal.Elem()
+			}
 			// convert so that slices of user-defined element types (type Level uint8) work
-			castSlice = reflect.Append(castSlice, castVal.Elem().Convert(t.Elem()))
+			castSlice = reflect.Append(castSlice, castVal.Convert(t.Elem()))
 		}
 		return castSlice, nil
 
